@@ -52,7 +52,7 @@ ASSUMPTIONS = [
 @st.composite
 def cases(draw):
     spec = draw(wfspecs({'max_tasks': 5, 'max_fcp': 6, 'abs': False,
-                         'multi_sections': True}))
+                         'multi_sections': True, 'future_odds': 2}))
     n = draw(st.integers(0, 4))
     if spec['mode'] == 'datetime' and draw(st.booleans()):
         spec['extra']['runahead'] = f'P{n}D'
